@@ -259,6 +259,13 @@ func genFor(prop string, r *rng, n int) []string {
 		out = append(out, genC04(r, k/2, false)...)
 		out = append(out, genC03(r, k/2, false)...)
 		out = append(out, genC01(r, k/2, false)...) // includes the `derive` op (key slices with canaries; both derivation variants under js/wasm)
+		// the registry through the exported API, twice per name: instantiating a registered suite must leave what lookup by
+		// name returns exactly as it was (no write through a shared entry)
+		for pass := 0; pass < 2; pass++ {
+			for _, name := range registered {
+				out = append(out, "suite "+hxs(name))
+			}
+		}
 		return out
 	case "C11":
 		// long mixed sequential history
@@ -333,6 +340,9 @@ func main() {
 
 	registered = otp.ListSuites()
 	sort.Strings(registered)
+	for _, n := range registered {
+		registrySnapshot[n] = otp.SuiteConfigFromRaws(n)
+	}
 	buildDict()
 
 	if *execOnly != "" {
